@@ -179,6 +179,24 @@ def cases(tier, rng):
         for k in rng.sample(sorted(ks), min(len(ks), 10)):
             yield {"op": "chunks", "fmt": fmt, "mode": rng.choice(["seek", "carry"]), "file": [ord(c) for c in text], "k": k,
                    "longest": max(len(e) for e in ents), "n": n}
+    # --- entry level, LONG fields (names / sequences far outside the small enumerated lengths: 100..300 characters)
+    for _ in range(120 if big else 24):
+        fmt = rng.choice(["bed6", "vcf", "sam", "gtf", "fastq", "fasta2line", "fasta", "fasta3", "fasta80"])
+        n = rng.randint(2, 4)
+        ents, header = make_entries(fmt if fmt != "fasta80" else "fasta", n, [rng.choice([2, 90, 130, 200, 300]) for _ in range(3)], rng)
+        if rng.random() < 0.7:     # a long name / identifier as well
+            k0 = rng.randrange(n)
+            pad = "N" * rng.choice([100, 127, 128, 129, 200])
+            e = ents[k0]
+            ents[k0] = e[:2] + pad + e[2:] if e[0] in ">@" else pad + e
+        body = "".join(ents)
+        L = len(body)
+        bounds = list(itertools.accumulate(len(e) for e in ents))
+        ks = {128, L, L + 1} | set(bounds) | {b + 1 for b in bounds} | {max(1, b - 1) for b in bounds} | {max(1, L // 2), max(1, L // 3)}
+        for k in rng.sample(sorted(ks), min(len(ks), 5)):
+            for gz, nl, crlf, lazy in rng.sample(list(itertools.product((False, True), (True, False), (False, True), (True, False))), 3):
+                yield {"op": "entries", "fmt": fmt if fmt != "fasta80" else "fasta", "header": header, "ents": ents, "gz": gz, "nl": nl, "crlf": crlf,
+                       "lazy": lazy, "k": k, "longest": max(len(e) for e in ents) + 2}
     # --- entry level: formats x gz x nl x crlf x lazy x k
     fmts = ["bed", "bed6", "bdg", "narrowPeak", "vcf", "vcfgt", "vcfpgt", "sam", "gtf", "fastq", "fasta2line", "fasta", "fasta3"]
     for fmt in fmts:
